@@ -76,6 +76,44 @@ func buildGroup(g *gnode) *quickfix.RepeatingGroup {
 	return rg
 }
 
+// buildGroupShared builds the group the way hand-written code often does: the nested
+// RepeatingGroup objects that sit in the template are themselves filled (for the first entry)
+// and handed to SetGroup; the same template is later used for reading.
+func buildGroupShared(g *gnode) (*quickfix.RepeatingGroup, quickfix.GroupTemplate) {
+	tm := tmplOf(g.Tmpl)
+	rg := quickfix.NewRepeatingGroup(quickfix.Tag(g.Tag), tm)
+	for ei, e := range g.Entries {
+		ge := rg.Add()
+		for _, f := range e {
+			if f.Grp == nil {
+				ge.SetString(quickfix.Tag(f.Tag), f.Val)
+				continue
+			}
+			if ei == 0 {
+				for ti, it := range g.Tmpl {
+					if it.Tag == f.Tag {
+						inner := tm[ti].(*quickfix.RepeatingGroup)
+						for _, ie := range f.Grp.Entries {
+							ige := inner.Add()
+							for _, ff := range ie {
+								if ff.Grp != nil {
+									ige.SetGroup(buildGroup(ff.Grp))
+								} else {
+									ige.SetString(quickfix.Tag(ff.Tag), ff.Val)
+								}
+							}
+						}
+						ge.SetGroup(inner)
+					}
+				}
+			} else {
+				ge.SetGroup(buildGroup(f.Grp))
+			}
+		}
+	}
+	return rg, tm
+}
+
 func dumpGroup(rg *quickfix.RepeatingGroup, tmpl []titem) string {
 	var b strings.Builder
 	fmt.Fprintf(&b, "%d[", rg.Len())
@@ -220,7 +258,7 @@ type scase struct {
 }
 
 // roundTrip builds the message through the API, parses it in the given mode and compares.
-func roundTrip(r *core.Result, mode string, begin, msgType string, g *gnode, others map[int]string, app *datadictionary.DataDictionary, dictName string, reuse *quickfix.Message, sigSuffix string) (wire string, ok bool) {
+func roundTrip(r *core.Result, mode string, begin, msgType string, g *gnode, others map[int]string, app *datadictionary.DataDictionary, dictName string, reuse *quickfix.Message, sigSuffix string, siblings ...*gnode) (wire string, ok bool) {
 	m := quickfix.NewMessage()
 	m.Header.SetString(8, begin)
 	m.Header.SetString(35, msgType)
@@ -229,7 +267,18 @@ func roundTrip(r *core.Result, mode string, begin, msgType string, g *gnode, oth
 	for t, v := range others {
 		m.Body.SetString(quickfix.Tag(t), v)
 	}
-	m.Body.SetGroup(buildGroup(g))
+	var readTmpl quickfix.GroupTemplate
+	if strings.Contains(sigSuffix, "shared-template") {
+		var wrg *quickfix.RepeatingGroup
+		wrg, readTmpl = buildGroupShared(g)
+		m.Body.SetGroup(wrg)
+	} else {
+		m.Body.SetGroup(buildGroup(g))
+		readTmpl = tmplOf(g.Tmpl)
+	}
+	for _, sg := range siblings {
+		m.Body.SetGroup(buildGroup(sg))
+	}
 	raw := []byte(m.String())
 	wire = fixwire.Pipe(raw)
 	tr := map[string]string{}
@@ -281,7 +330,7 @@ func roundTrip(r *core.Result, mode string, begin, msgType string, g *gnode, oth
 		r.Violate("C13/parse-error/"+mode+sigSuffix, fmt.Sprintf("parse (%s) of API-built message failed: %v; wire %q", mode, perr, wire), sc)
 		return wire, false
 	}
-	rg := quickfix.NewRepeatingGroup(quickfix.Tag(g.Tag), tmplOf(g.Tmpl))
+	rg := quickfix.NewRepeatingGroup(quickfix.Tag(g.Tag), readTmpl)
 	if gerr := msg.Body.GetGroup(rg); gerr != nil {
 		r.Violate("C13/group-unreadable/"+mode+sigSuffix, fmt.Sprintf("GetGroup(%d) after %s parse: %v; wire %q", g.Tag, mode, gerr, wire), sc)
 		return wire, false
@@ -290,6 +339,18 @@ func roundTrip(r *core.Result, mode string, begin, msgType string, g *gnode, oth
 	if got != exp {
 		r.Violate("C13/group-differs/"+mode+sigSuffix, fmt.Sprintf("group %d reads back as %s, written %s (%s parse); wire %q", g.Tag, got, exp, mode, wire), sc)
 		return wire, false
+	}
+	for _, sg := range siblings {
+		srg := quickfix.NewRepeatingGroup(quickfix.Tag(sg.Tag), tmplOf(sg.Tmpl))
+		if gerr := msg.Body.GetGroup(srg); gerr != nil {
+			r.Violate("C13/group-unreadable/"+mode+"/sibling-group"+sigSuffix, fmt.Sprintf("GetGroup(%d) (sibling of group %d) after %s parse: %v; wire %q", sg.Tag, g.Tag, mode, gerr, wire), sc)
+			return wire, false
+		}
+		if got, exp := dumpGroup(srg, sg.Tmpl), dumpModel(sg); got != exp {
+			r.Violate("C13/group-differs/"+mode+"/sibling-group"+sigSuffix, fmt.Sprintf("group %d (sibling of %d) reads back as %s, written %s (%s parse); wire %q", sg.Tag, g.Tag, got, exp, mode, wire), sc)
+			return wire, false
+		}
+		r.Count("sibling_groups_checked", 1)
 	}
 	keys := []int{}
 	for t := range others {
@@ -435,12 +496,19 @@ func synCase(c *core.Ctx, r *core.Result, i int, rng *rand.Rand, verbose bool) {
 	if reuse != nil {
 		sfx = "/reused-message"
 	}
+	if rng.Intn(3) == 0 {
+		sfx += "/shared-template"
+	}
 	wire, ok1 := roundTrip(r, "nodict", "FIX.4.4", "D", g, others, nil, "", reuse, sfx)
 	dd, err := datadictionary.ParseSrc(strings.NewReader(synthXML(gtag, tmpl, olist)))
 	if err != nil {
 		panic("harness: generated dictionary refused: " + err.Error())
 	}
-	_, ok2 := roundTrip(r, "dict", "FIX.4.4", "D", g, others, dd, "generated", nil, "")
+	sfx2 := ""
+	if strings.Contains(sfx, "shared-template") {
+		sfx2 = "/shared-template"
+	}
+	_, ok2 := roundTrip(r, "dict", "FIX.4.4", "D", g, others, dd, "generated", nil, sfx2)
 	if ok1 != ok2 {
 		r.Count("modes_disagree", 1)
 	}
@@ -528,7 +596,37 @@ func shipCase(c *core.Ctx, r *core.Result, t shipTarget, rng *rand.Rand, verbose
 	}
 	r.Eval(1)
 	app := dicts.DD(t.cfg.App)
-	wire, ok := roundTrip(r, "dict", t.cfg.Begin(), t.msgType, g, others, app, t.cfg.App, nil, "")
+	var sibs []*gnode
+	if rng.Intn(2) == 0 {
+		for _, m := range t.top {
+			if m.IsGroup && len(m.Kids) > 0 && m.Tag != t.group.Tag && !inGroup[m.Tag] && rng.Intn(2) == 0 && len(sibs) < 3 {
+				overlap := false
+				mt := map[int]bool{}
+				specwalk.AllTags([]specwalk.Member{m}, mt)
+				for x := range mt {
+					if inGroup[x] {
+						overlap = true
+					}
+				}
+				for _, sg := range sibs {
+					st := map[int]bool{}
+					collect(sg, st)
+					for x := range mt {
+						if st[x] {
+							overlap = true
+						}
+					}
+				}
+				if !overlap {
+					sibs = append(sibs, populate(rng, m.Tag, tmplFromMembers(m.Kids), 2, 0.5))
+					for x := range mt {
+						delete(others, x)
+					}
+				}
+			}
+		}
+	}
+	wire, ok := roundTrip(r, "dict", t.cfg.Begin(), t.msgType, g, others, app, t.cfg.App, nil, "", sibs...)
 	hasAfter := false
 	for o := range others {
 		if o > t.group.Tag {
@@ -546,6 +644,20 @@ func shipCase(c *core.Ctx, r *core.Result, t shipTarget, rng *rand.Rand, verbose
 	if verbose {
 		fmt.Println(key, wire, ok)
 	}
+}
+
+func collect(g *gnode, into map[int]bool) {
+	into[g.Tag] = true
+	var w func(t []titem)
+	w = func(t []titem) {
+		for _, it := range t {
+			into[it.Tag] = true
+			if it.Sub != nil {
+				w(it.Sub)
+			}
+		}
+	}
+	w(g.Tmpl)
 }
 
 func runShipped(c *core.Ctx, r *core.Result) {
